@@ -676,12 +676,15 @@ impl Ipv6Extensions {
 
         // check if hop by hop header should be written first
         if IPV6_HOP_BY_HOP == next_header {
-            let header = &self.hop_by_hop_options.as_ref().unwrap();
-            writer
-                .write_all(&header.to_bytes())
-                .map_err(WriteError::Io)?;
-            next_header = header.next_header;
-            needs_write.hop_by_hop_options = false;
+            // the first header value can be the hop by hop number (0)
+            // without a hop by hop header being present (see `next_header`)
+            if let Some(ref header) = self.hop_by_hop_options {
+                writer
+                    .write_all(&header.to_bytes())
+                    .map_err(WriteError::Io)?;
+                next_header = header.next_header;
+                needs_write.hop_by_hop_options = false;
+            }
         }
 
         loop {
